@@ -395,6 +395,10 @@ structure JW where
   first : List String := []       -- wlog
   more : List String := []        -- wlogmore
   damaged : Bool := false
+  dmgSeg : Nat := 0
+  dmgOff : Nat := 0
+  dmgMu : String := ""
+  nsegs : Nat := 0
   afterDamage : Option (List String) := none   -- records of the first read after the damage
   repaired : Bool := false
 
@@ -406,7 +410,10 @@ def judgeW (js : JW) (op out : String) : JW × Option String :=
   | ["wlogmore", recs] =>
     ({ js with more := js.more ++ ((parsePairs? recs).getD []).map fun (l, s) => recId (genRec l s) },
      if out.startsWith "ok" then none else some s!"repaired-log-rejects-writes `{op}` {out}")
-  | "wdamage" :: _ => ({ js with damaged := true }, none)
+  | ["wdamage", seg, off, mu] =>
+    ({ js with damaged := true, dmgSeg := seg.toNat?.getD 0, dmgOff := off.toNat?.getD 0, dmgMu := mu }, none)
+  | ["wclose"] =>
+    (if js.damaged then js else { js with nsegs := (((toks out).getD 1 "").splitOn ",").length }, none)
   | ["wrepair"] => ({ js with repaired := true }, if out.startsWith "ok" ∨ out = "none" then none else some s!"repair-failed {out}")
   | [rd] =>
     if rd = "wread" ∨ rd = "wreadall" then
@@ -419,7 +426,14 @@ def judgeW (js : JW) (op out : String) : JW × Option String :=
         match ids.find? (fun i => i ≠ emptyId ∧ !js.first.contains i) with
         | some i => (js, some s!"reader-invented record={i} status={status}")
         | none =>
-          if !isPrefixOf real firstReal then (js, some s!"reader-not-prefix status={status} got={ids.length}")
+          if !isPrefixOf real firstReal then
+            -- a contiguous run of records missing from the middle?
+            let i := ((List.range (real.length + 1)).filter fun i => real.take i == firstReal.take i).getLast?.getD 0
+            let tail := real.drop i
+            let gap := tail.length ≤ firstReal.length ∧ firstReal.drop (firstReal.length - tail.length) == tail
+            if gap ∧ js.dmgMu = "trunc" ∧ js.dmgSeg + 1 < js.nsegs then
+              (js, some s!"nonlast-segment-truncation-undetected seg={js.dmgSeg}/{js.nsegs} off={js.dmgOff} status={status} got={ids.length}")
+            else (js, some s!"reader-not-prefix status={status} got={ids.length}")
           else ({ js with afterDamage := some ids }, none)
       | some kept =>
         -- after repair / reopen, further writes and close
